@@ -235,18 +235,18 @@ func (k *canary) full() string {
 // ---------------------------------------------------------------------------------------
 
 type wk struct {
-	se       SeedEnv
-	env      *brokerx.Env
-	can      *canary
-	surveyor *survey.Surveyor
-	sizeEnvs map[int]*brokerx.Env
-	sizeCan  map[int]*canary
-	journal  *mjournal
-	mem      runtime.MemStats
-	exact    bool
-	rawSeq   int
+	se          SeedEnv
+	env         *brokerx.Env
+	can         *canary
+	surveyor    *survey.Surveyor
+	sizeEnvs    map[int]*brokerx.Env
+	sizeCan     map[int]*canary
+	journal     *mjournal
+	mem         runtime.MemStats
+	exact       bool
+	rawSeq      int
 	leakedLocks int
-	sample   [1]metrics.Sample
+	sample      [1]metrics.Sample
 }
 
 // alloc returns the cumulative bytes allocated by the process. Exact mode stops the world
@@ -821,9 +821,9 @@ func (w *wk) probe(cs Case) bool {
 
 type probeSub struct{}
 
-func (probeSub) ID() string                     { return "c09-probe" }
-func (probeSub) Type() message.SubscriberType   { return message.SubscriberDirect }
-func (probeSub) Send(m *message.Message) error  { return nil }
+func (probeSub) ID() string                    { return "c09-probe" }
+func (probeSub) Type() message.SubscriberType  { return message.SubscriberDirect }
+func (probeSub) Send(m *message.Message) error { return nil }
 
 func b64(s string) string {
 	if s == "" {
